@@ -170,7 +170,7 @@ def eval_tree(tree, x):
     if not isinstance(A, LinearOperator):
         ck.add("build", "type", f"program returned {type(A).__name__}, not an operator")
         return ck.fails, R
-    if "SelfAdjoint" in TP.scalar_invalidated_annotations(A):
+    if "SelfAdjoint" in TP.scalar_invalidated_annotations(A) or TP.contaminated_by_scalar(tree):
         return "contaminated", R  # open finding F-C05-scalar (recorded under C05) makes the .T/.H short-cuts wrong
     if tuple(A.shape) != R.shape:
         ck.add("shape", "shape", f"A.shape={A.shape} expected {R.shape}")
